@@ -554,6 +554,19 @@ impl Handle {
         self.0.cv.notify_all();
     }
 
+    /// Queue bytes and end the stream right behind them, atomically: the end can never be
+    /// seen before the bytes.
+    pub fn inject_then_end(&self, bytes: Vec<u8>, end: Option<InEnd>) {
+        let mut st = self.0.lock();
+        st.reflex.note_server_bytes(&bytes);
+        self.0.push_in(&mut st, bytes);
+        if end.is_some() {
+            st.in_end = end;
+        }
+        self.0.sync_ready(&mut st);
+        self.0.cv.notify_all();
+    }
+
     /// The server closes channel `ch` - unless it has already seen the client's own
     /// Channel.Close for it (then there is nothing left to close). Atomic with respect to
     /// the broker's view of the client's byte stream. Returns whether the Close was sent.
